@@ -447,8 +447,8 @@ def ob_main_exit(pid):
                     "at any insertion or at the final flush), status in {0,1,2}, non-zero status with a diagnostic on std::cerr, no exception escapes; the command either "
                     "succeeds, fails or throws BadFileSystem", "command line `dfs cat` (no global options: getopt_long contract stub returns -1 at once); harness command with 3 insertions",
                     ["dfs/main.cc:main", "dfs/main.cc:exit_status", "dfs/main.cc:check_consistency", "dfs/commands.cc:CIReg::get_command"], unwind=8,
-                    unwindset=[("X_strlen", 64), ("vf_string", 66), ("X_mem", 64), ("h_main_exit", 26)], defines=("NDEBUG",), weight_gb=6, timeout=900, replace=[r"check_consistency=h_check_ok"], clang_extra=["-fno-inline", "-DVF_INSTANTIATE_STRING"],
-                    stubs=["check_consistency (option-table self-test): cut, returns true", "getopt_long: contract stub (no global options)", "make_image_file / CommandHelp: not reachable without global options (havoc)"])
+                    unwindset=[("X_strlen", 130), ("h_main_exit", 26), ("vf_string", 130), ("X_mem", 130)], defines=("NDEBUG", "VF_STRMODEL", "VF_STRCAP=128"), weight_gb=6, timeout=900, 
+                    stubs=[STRMODEL_NOTE, "getopt_long: contract stub (no global options)", "make_image_file / CommandHelp: not reachable without global options (havoc)"])
 def ob_get_arg(pid, alen):
     return X.cxx_ob(pid, "get_arg.A%d" % alen, "w_dump.cc", "h_get_arg", "dump-sector's get_arg: a track/sector argument is accepted iff it is a decimal number in 0..limit and is taken at its value",
                     "every argument string of exactly %d characters, every 16-bit limit" % alen, ["dfs/cmd_dump.cc:get_arg"], unwind=8,
